@@ -606,7 +606,7 @@ def run(chk):
         add_term(("bin", o, ("chain", A, [("[", B, False), (".", "b", False)]), ("chain", ("self",), [("[", None, False)])), ["tight"], "opchain")
         add_term(("bin", o, ("collect", ("bin", o, A, B)), ("object", ("bin", ":", ("str", "k"), ("bin", "+", A, B)))), ["newline"], "opbr")
     # (3) random terms
-    n_rand = 12000 if thorough else 500
+    n_rand = 12000 if thorough else 800
     rand_start = len(terms)
     for i in range(n_rand):
         t = gen_term(rng, rng.choice([1, 2, 2, 3, 3, 4] if not thorough else [2, 3, 3, 4, 4, 5]), for_eval=True)
